@@ -679,6 +679,11 @@ def run_check(prop: Prop, tier: str, seed: int, replay: str | None = None) -> in
             if mos[0] is not None and not isinstance(obs[0], SkipCase):
                 tie = prop.compare(cases[0], obs[0], mos[0])
             print(json.dumps({"oracle": jsonable(what), "tie": jsonable(tie), "observation": jsonable(obs[0])}, indent=1)[:6000])
+            if what:
+                kid = prop.classify(cases[0], what, known_active)
+                if kid is not None and kid in known_active:
+                    print(f"KNOWN-FINDING: property={prop.id} {kid}: {known_active[kid]['what']}")
+                    what = None
             if what or tie:
                 print(f"VIOLATION property={prop.id} replay={replay}")
                 return 1
